@@ -121,7 +121,7 @@ func (v *View) String() string {
 	}
 	sort.Strings(ts)
 	return fmt.Sprintf("%s %s %s host=%s cl=%d close=%v H[%s] T[%s] B[%d:%08x] E[%s]", v.Method, v.URI, v.Proto, v.Host, v.CL, v.ConnClose,
-		strings.Join(ks, ","), strings.Join(ts, ","), len(v.Body), hash(v.Body), v.BodyErr)
+		strings.Join(ks, ","), strings.Join(ts, ","), len(v.Body), hash(v.Body), errClass(v.BodyErr))
 }
 
 // Dedicated names are surfaced through dedicated getters and excluded from the
@@ -186,4 +186,22 @@ func CompareHdrs(got map[string][]string, want map[string][]string, folded, orde
 		}
 	}
 	return ""
+}
+
+// errClass strips buffer snippets and numbers from an error text (they depend on how
+// much happened to be buffered).
+func errClass(s string) string {
+	if i := strings.Index(s, "Buffer size"); i >= 0 {
+		s = s[:i]
+	}
+	if i := strings.Index(s, "\""); i >= 0 {
+		s = s[:i]
+	}
+	b := []byte(s)
+	for i, c := range b {
+		if c >= '0' && c <= '9' {
+			b[i] = 'N'
+		}
+	}
+	return string(b)
 }
